@@ -6,6 +6,7 @@ regimes up to a depth, compared in every state with exact rational
 arithmetic; plus exhaustive enumeration of estimate_from_repeats' stopping
 rule.
 """
+import copy
 import itertools
 from fractions import Fraction
 
@@ -160,19 +161,18 @@ def run_stats(task):
                     "sample: %d %r %r" % (r2.count, r2.mean, r2.var, n,
                                           float(mu), float(var))))
 
-    def rec(seq, state):
-        rs = RunningStatistics()
-        rs.count, rs.mean, rs.M2 = state
+    def rec(seq, rs):
+        # (the successor states are copies of the real object that was just
+        # read, so anything it remembers beyond count/mean/M2 travels along)
         if seq:
             check(seq, rs)
         if len(seq) == depth:
             return
         for x in al:
-            r = RunningStatistics()
-            r.count, r.mean, r.M2 = state
+            r = copy.deepcopy(rs)
             r.update(x)
             out["transitions"] += 1
-            rec(seq + [x], (r.count, r.mean, r.M2))
+            rec(seq + [x], r)
 
     rs0 = RunningStatistics()
     seq = []
@@ -186,7 +186,7 @@ def run_stats(task):
             r = RunningStatistics()
             r.update(x)
             check([x], r)
-    rec(seq, (rs0.count, rs0.mean, rs0.M2))
+    rec(seq, rs0)
     out["sample"] = {"part": "stats", "regime": REGIMES[task["regime"]],
                      "sequence": seq + [al[4]] * 2}
     return fin(out)
@@ -210,7 +210,7 @@ def run_cov(task):
     scale = max(max(abs(x), abs(y)) for x, y in pa)
     tag = "C19|cov|regime%d|" % task["regime"]
 
-    def rec(seq, st):
+    def rec(seq, rc):
         n = len(seq)
         if n >= 1:
             out["states"] += 1
@@ -220,8 +220,6 @@ def run_cov(task):
             cov = sum((a - mx) * (b - my) for a, b in zip(fx, fy)) / n
             vx = sum((a - mx) ** 2 for a in fx) / n
             vy = sum((b - my) ** 2 for b in fy) / n
-            rc = RunningCovariance()
-            rc.count, rc.xmean, rc.ymean, rc.C = st
             # condition: products of the spreads and the means
             sx, sy = float(vx) ** 0.5, float(vy) ** 0.5
             bound = 8 * n * EPS * ((sx + abs(float(mx))) * (sy + abs(float(my))))\
@@ -250,16 +248,15 @@ def run_cov(task):
         if n == task["depth"]:
             return
         for p in pa:
-            r = RunningCovariance()
-            r.count, r.xmean, r.ymean, r.C = st
+            r = copy.deepcopy(rc)
             r.update(*p)
             out["transitions"] += 1
-            rec(seq + [p], (r.count, r.xmean, r.ymean, r.C))
+            rec(seq + [p], r)
 
     r0 = RunningCovariance()
     p0 = pa[task["first"]]
     r0.update(*p0)
-    rec([p0], (r0.count, r0.xmean, r0.ymean, r0.C))
+    rec([p0], r0)
     out["sample"] = {"part": "cov", "pairs": [list(p0), list(pa[1])]}
     return fin(out)
 
@@ -283,40 +280,55 @@ def run_matrix(task):
         # between (the two must not influence each other)
         other = RunningCovarianceMatrix(n)
         data = [rows[i] for i in seq]
+
+        def judge(k):
+            """the accumulator after the first k rows"""
+            out["states"] += 1
+            cols = [[Fraction(r[c]) for r in data[:k]] for c in range(n)]
+            means = [sum(c) / k for c in cols]
+            exact = [[float(sum((a - means[i]) * (b - means[j])
+                                for a, b in zip(cols[i], cols[j])) / k)
+                      for j in range(n)] for i in range(n)]
+            got = m.covar_matrix
+            tol = 64 * k * EPS * scale * scale
+            if m.count != k:
+                out["vio"].setdefault(tag + "count", (list(seq[:k]), "count"))
+            if not np.allclose(got, np.array(exact), rtol=0, atol=tol):
+                out["vio"].setdefault(tag + "covar_matrix", (
+                    list(seq[:k]), "covar_matrix %r, exact %r"
+                    % (got.tolist(), exact)))
+            if not np.array_equal(got, got.T):
+                out["vio"].setdefault(tag + "symmetry",
+                                      (list(seq[:k]), "not symmetric"))
+            if k >= 2:
+                sg = m.sample_covar_matrix
+                if not np.allclose(sg, np.array(exact) * k / (k - 1), rtol=0,
+                                   atol=tol * 2):
+                    out["vio"].setdefault(tag + "sample_covar_matrix", (
+                        list(seq[:k]), "sample covariance matrix off"))
+                out["nontrivial"] += 1
+
         for j, r in enumerate(data):
-            if j % 2:
+            if (j + seq[0]) % 2:
                 m.update(*r)
             else:
                 m.update_from_it(*[[v] for v in r])
             other.update(*rows[(seq[j] + 2) % 5][::-1])
             out["transitions"] += 1
+            # every intermediate state is read (reading must not change what
+            # comes later); it is judged the first time its prefix comes up
+            if j + 1 < len(data):
+                if not any(seq[j + 1:]):
+                    judge(j + 1)
+                else:
+                    m.covar_matrix
+                    if j >= 1:
+                        m.sample_covar_matrix
         if other.count != len(data):
             out["vio"].setdefault(tag + "interference", (
                 list(seq), "a second accumulator counts %r after %d updates"
                 % (other.count, len(data))))
-        out["states"] += 1
-        k = len(data)
-        cols = [[Fraction(r[c]) for r in data] for c in range(n)]
-        means = [sum(c) / k for c in cols]
-        exact = [[float(sum((a - means[i]) * (b - means[j])
-                            for a, b in zip(cols[i], cols[j])) / k)
-                  for j in range(n)] for i in range(n)]
-        got = m.covar_matrix
-        tol = 64 * k * EPS * scale * scale
-        if m.count != k:
-            out["vio"].setdefault(tag + "count", (list(seq), "count"))
-        if not np.allclose(got, np.array(exact), rtol=0, atol=tol):
-            out["vio"].setdefault(tag + "covar_matrix", (
-                list(seq), "covar_matrix %r, exact %r" % (got.tolist(), exact)))
-        if not np.array_equal(got, got.T):
-            out["vio"].setdefault(tag + "symmetry", (list(seq), "not symmetric"))
-        if k >= 2:
-            sg = m.sample_covar_matrix
-            if not np.allclose(sg, np.array(exact) * k / (k - 1), rtol=0,
-                               atol=tol * 2):
-                out["vio"].setdefault(tag + "sample_covar_matrix", (
-                    list(seq), "sample covariance matrix off"))
-            out["nontrivial"] += 1
+        judge(len(data))
     return fin(out)
 
 
